@@ -269,6 +269,7 @@ static void on_init(lp_id_t me)
 }
 
 static unsigned long n_dispatch, n_frozen_dispatch;
+static uint64_t g_tterm_q;
 static void on_dispatch(lp_id_t me, uint64_t tq, unsigned type, const void *pl, unsigned size, int frozen)
 {
 	n_dispatch++;
@@ -285,8 +286,14 @@ static void on_fini(lp_id_t me, const struct gm_state *st)
 	uint64_t d = gm_digest(st, lps[me].rng_ctx->state);
 	if(mode_par) {
 		OP("finilp %u %llu", rid, (unsigned long long)me);
-		RE("finilp lp=%llu st=%llx cnt=%llu seq=%llx", (unsigned long long)me, (unsigned long long)d,
-		    (unsigned long long)st->cnt, (unsigned long long)d);
+		/* the final state is claimed to equal the sequential one only for predicate-terminated runs;
+		 * a run stopped by a termination time ends in a speculative state */
+		if(g_tterm_q)
+			RE("finilp lp=%llu st=%llx cnt=%llu seq=-", (unsigned long long)me, (unsigned long long)d,
+			    (unsigned long long)st->cnt);
+		else
+			RE("finilp lp=%llu st=%llx cnt=%llu seq=%llx", (unsigned long long)me, (unsigned long long)d,
+			    (unsigned long long)st->cnt, (unsigned long long)d);
 	} else {
 		OP("sfini %llu", (unsigned long long)me);
 		RE("sfini lp=%llu st=%llx cnt=%llu", (unsigned long long)me, (unsigned long long)d, (unsigned long long)st->cnt);
@@ -359,6 +366,7 @@ int main(int argc, char **argv)
 	vs_budget = argu(argc, argv, "budget", 3000000);
 	vs_burst = argu(argc, argv, "burst", 0);
 	uint64_t tterm_q = argu(argc, argv, "tterm", 0);
+	g_tterm_q = tterm_q;
 	freed_ord = calloc(1u << 24, 1);
 	gm_on_dispatch = on_dispatch;
 	gm_on_init = on_init;
